@@ -126,6 +126,8 @@ HARNESS_FLAGS = {
              "-fsanitize=address,undefined,float-cast-overflow",
              "-fno-sanitize-recover=undefined,float-cast-overflow"],
     "tsan": ["clang++", "-O1", "-g", "-std=c++14", "-fsanitize=thread"],
+    # header-only harnesses (link_lib=False): clang compiles Eigen-heavy code about twice as fast as g++
+    "clang": ["clang++", "-O1", "-std=c++14"],
 }
 
 
@@ -143,11 +145,12 @@ def _deps_newer(depfile, out):
 
 
 def harness(name, variant, sources, extra=(), link_lib=True, instrument_harness=False,
-            libs=()):
+            libs=(), cov_sources=()):
     """Compile /verif/harness sources against a variant's library.  Returns the
     executable path.  Rebuilds iff a dependency (incl. repo headers and the
     library itself) is newer or the command line changed."""
-    ensure(variant)
+    if link_lib or variant in VARIANTS:
+        ensure(variant)
     hd = os.path.join(vdir(variant), "harness")
     os.makedirs(hd, exist_ok=True)
     out = os.path.join(hd, name)
@@ -158,9 +161,18 @@ def harness(name, variant, sources, extra=(), link_lib=True, instrument_harness=
     cmd += [GUARD, "-I" + os.path.join(REPO, "include"), "-I" + os.path.join(REPO, "src"),
             "-I" + os.path.join(VERIF, "engine"), "-I/usr/include/eigen3",
             "-fno-access-control", "-MD", "-MF", out + ".d"]
-    cmd += list(extra) + srcs + ["-o", out]
+    # cov_sources: harness TUs that get coverage instrumentation individually (cov variant only)
+    pre = []
+    for cs in cov_sources:
+        csp = cs if os.path.isabs(cs) else os.path.join(VERIF, "harness", cs)
+        obj = out + "." + os.path.basename(cs) + ".o"
+        c = list(HARNESS_FLAGS[variant]) + (["-fsanitize-coverage=trace-pc-guard"] if variant == "cov" else []) + [
+            GUARD, "-I" + os.path.join(REPO, "include"), "-I" + os.path.join(REPO, "src"),
+            "-I" + os.path.join(VERIF, "engine"), "-I/usr/include/eigen3", "-fno-access-control"] + list(extra) + ["-c", csp, "-o", obj]
+        pre.append((c, csp, obj))
+    cmd += list(extra) + srcs + [p_[2] for p_ in pre] + ["-o", out]
     if link_lib:
-        if VARIANTS[variant]["shared"]:
+        if VARIANTS[variant]["shared"]:  # noqa
             cmd += ["-L" + os.path.join(vdir(variant), "lib"), "-lgm2calc",
                     "-Wl,-rpath," + os.path.join(vdir(variant), "lib")]
         else:
@@ -172,7 +184,12 @@ def harness(name, variant, sources, extra=(), link_lib=True, instrument_harness=
         need = (not os.path.exists(out) or not os.path.exists(sigf)
                 or open(sigf).read() != sig or _deps_newer(out + ".d", out)
                 or (link_lib and os.path.getmtime(libpath(variant)) > os.path.getmtime(out)))
+        need = need or any(not os.path.exists(o_) or os.path.getmtime(s_) > os.path.getmtime(o_) for _, s_, o_ in pre)
         if need:
+            for c, s_, o_ in pre:
+                rc, o = _run(c)
+                if rc != 0:
+                    raise BuildError("harness %s/%s (%s) failed:\n%s" % (variant, name, s_, o[-4000:]))
             rc, o = _run(cmd)
             if rc != 0:
                 raise BuildError("harness %s/%s failed:\n%s\n%s" % (variant, name, shlex.join(cmd), o[-6000:]))
